@@ -57,6 +57,9 @@ def scan_table(P, rep):
     cl = sorted({l for locs in Mtmp.loop_info(fn).values() for l in locs})
     table = {}
     effects = []
+    untrusted = set()
+    import rules_C16
+    guard_names = {g_.split("::")[-1] for g_ in rules_C16.nesting_guards(P)}
     # only locals whose loop-entry value is actually read (appears in a path condition) are loop-carried state
     read = set()
     for p in paths:
@@ -90,6 +93,23 @@ def scan_table(P, rep):
             cls = {"<no-scan>"}
         else:
             cls = {"<plain>"}
+        # a decision taken on the text of the line by anything but the line parser (or the nesting guard in front of it, whose refusal
+        # makes the line unparsable everywhere) says nothing about the line's class: such a path may be taken by a line of any class
+        for e, t in p.conds:
+            sh = sx.show(e)
+            if ":Some.0.1" not in sh:
+                continue
+            m = re.match(r"^\(+([\w:<> ]+?)\(", sh)
+            head = m.group(1).split("::")[-1] if m else "?"
+            if head == "line":
+                continue
+            if head in guard_names:
+                refused = t if sh.endswith("== 0)") else (not t)
+                if refused:
+                    cls = {"<unparsable>"}
+                continue
+            cls = {"<any>"}
+            untrusted.add(sh[:120])
         # counter condition
         czero = None
         csym = None
@@ -144,6 +164,9 @@ def scan_table(P, rep):
                 nm = ev[1]
                 if not (nm.endswith("Iterator::next") or nm == "document::document::line" or "Drop" in nm or "drop" in nm):
                     effects.append(nm)
+    rep.ob("C08.scan|text-predicate", not untrusted, "while skipping, a line's role is decided only by the line parser's result (and the nesting guard in front of it)" if not untrusted else
+           "while skipping, skip() branches on the text of the line with %s — a test that is not the line parser: a line of any class (an `.endif` with a label, a `#else`) may take that branch" % sorted(untrusted)[0],
+           detail=sorted(untrusted))
     return table, sorted(set(effects)), len(paths)
 
 
@@ -151,7 +174,7 @@ def scan_step(table, mode, cls, c):
     """action of the extracted scanner for one line"""
     hits = []
     for classes, czero, act in table.get(mode, []):
-        if cls in classes or (cls not in KNOWN and "<other>" in classes):
+        if cls in classes or (cls != "<eof>" and "<any>" in classes) or (cls not in KNOWN and "<other>" in classes):
             if czero is None or czero == (c == 0):
                 hits.append(act)
     return hits
